@@ -279,15 +279,31 @@ func runCase(c *kase) {
 		t, init, ops := f[1][0], f[2], splitOps(f[3])
 		c.impl = execC(t, init, ops)
 		c.spec = specC(t, ops)
+		for i := range c.spec {
+			if c.spec[i] == "?" && i < len(c.impl) {
+				c.spec[i] = c.impl[i]
+			}
+		}
 		dinit := init
 		if init == "def" {
 			dinit = "cap:0"
 		}
 		c.dl = []string{"C " + f[1] + " " + dinit + " " + f[3]}
+	case 'N':
+		t, init, ops := f[1][0], f[2], splitOps(f[3])
+		c.impl = execN(t, init, ops)
+		c.spec = specN(t, ops)
+		dinit := init
+		if init == "def" {
+			dinit = "cap:0"
+		}
+		c.dl = []string{"N " + f[1] + " " + dinit + " " + f[3]}
 	case 'T':
 		runTable(c)
 	case 'Q':
 		runConcCase(c)
+	case 'S':
+		runSortContract(c)
 	case 'X':
 		t, ops := f[1][0], splitOps(f[2])
 		c.impl = execX(t, ops)
@@ -467,10 +483,33 @@ func judge(c *kase, rep *vh.Report) {
 			rep.Fail("correspondence", typeNames[t]+".Filtering:model-disagrees",
 				fmt.Sprintf("implementation %s, model %s", vh.Clip(c.impl[0], 80), vh.Clip(c.dout[0], 80)), replayOf(c, nil))
 		}
+	case 'N':
+		t, ops := f[1][0], splitOps(f[3])
+		rep.Case(c.line, len(ops) > 0)
+		rep.Count("N.type." + typeNames[t])
+		for _, op := range ops {
+			rep.Count("N.op." + strings.Split(op, ":")[0])
+		}
+		numName := map[string]string{"aI": "AddInt/AddLong", "aF": "AddFloat", "aD": "AddDouble", "sI": "SetInt/SetLong", "sF": "SetFloat", "sD": "SetDouble",
+			"gI": "GetInt/GetLong", "gF": "GetFloat", "gD": "GetDouble", "gV": "GetValue", "gO": "GetObject", "t": "elements"}
+		model := splitOps(c.dout[0])
+		if d := firstDiff(c.impl, c.spec); d >= 0 {
+			rep.Fail("property", typeNames[t]+"."+numName[strings.Split(at(ops, d), ":")[0]]+":"+classify(at(c.impl, d), at(c.spec, d)),
+				fmt.Sprintf("%s: op #%d %s answers %s, the conversion computed with math/big gives %s", typeNames[t], d, vh.Clip(at(ops, d), 60), vh.Clip(at(c.impl, d), 60), vh.Clip(at(c.spec, d), 60)),
+				replayOf(c, map[string]interface{}{"op_index": d}))
+			return
+		}
+		if d := firstDiff(c.impl, model); d >= 0 {
+			rep.Fail("correspondence", typeNames[t]+"."+numName[strings.Split(at(ops, d), ":")[0]]+":model-disagrees",
+				fmt.Sprintf("op #%d %s: implementation %s, model %s", d, vh.Clip(at(ops, d), 60), vh.Clip(at(c.impl, d), 60), vh.Clip(at(model, d), 60)),
+				replayOf(c, map[string]interface{}{"op_index": d}))
+		}
 	case 'T':
 		judgeTable(c, rep)
 	case 'Q':
 		judgeConc(c, rep)
+	case 'S':
+		judgeSortContract(c, rep)
 	case 'C':
 		t, ops := f[1][0], splitOps(f[3])
 		rep.Case(c.line, len(ops) > 0)
@@ -481,7 +520,8 @@ func judge(c *kase, rep *vh.Report) {
 				rep.Count("C.panic." + strings.Split(op, ":")[0])
 			}
 		}
-		crossName := map[string]string{"aI": "AddInt", "aS": "AddString", "sI": "SetInt", "sS": "SetString", "gI": "GetInt", "gS": "GetString", "t": "ToArray"}
+		crossName := map[string]string{"aI": "AddInt", "aS": "AddString", "sI": "SetInt", "sS": "SetString", "gI": "GetInt", "gS": "GetString", "t": "ToArray",
+			"P": "ToString", "gV": "GetValue", "gO": "GetObject"}
 		model := splitOps(c.dout[0])
 		if d := firstDiff(c.impl, c.spec); d >= 0 {
 			cls := classify(at(c.impl, d), at(c.spec, d))
